@@ -109,7 +109,9 @@ class Simplifier(pysmt.walkers.DagWalker):
         elif len(new_args) == 1:
             return next(iter(new_args))
         else:
-            return self.manager.And(new_args)
+            # Sets with the same elements must give the same formula
+            return self.manager.And(sorted(new_args,
+                                           key=lambda x: x.node_id()))
 
     def walk_or(self, formula: FNode, args: List[FNode], **kwargs) -> FNode:
         if len(args) == 2 and args[0] == args[1]:
@@ -136,7 +138,9 @@ class Simplifier(pysmt.walkers.DagWalker):
         elif len(new_args) == 1:
             return next(iter(new_args))
         else:
-            return self.manager.Or(new_args)
+            # Sets with the same elements must give the same formula
+            return self.manager.Or(sorted(new_args,
+                                          key=lambda x: x.node_id()))
 
     def walk_not(self, formula: FNode, args: List[FNode], **kwargs) -> FNode:
         assert len(args) == 1
